@@ -26,7 +26,8 @@ RULE = "per-plate mask, chunk counts and batches are solver-enumerated; observed
 BUDGET_S = {"quick": 240, "thorough": 1500}
 TASK_QUOTA = 60
 
-ROWS5 = [("s1", "a", 1.0, "b", 1.0, "p0"), ("s2", "a", 1.0, "", 0.0, "p0"), ("s1", "b", 1.0, "c", 2.0, "p1"),
+# (row 2 repeats the condition of row 0 on another plate: replicate measurements are experiments of their own)
+ROWS5 = [("s1", "a", 1.0, "b", 1.0, "p0"), ("s2", "a", 1.0, "", 0.0, "p0"), ("s1", "a", 1.0, "b", 1.0, "p1"),
          ("s2", "", 0.0, "", 0.0, "p1"), ("s2", "c", 2.0, "a", 1.0, "p2")]
 ROWS7 = ROWS5 + [("s1", "", 0.0, "b", 1.0, "p3"), ("s3", "b", 1.0, "a", 1.0, "p3")]
 
